@@ -3,7 +3,7 @@
    Vocabulary: Model.v (what the code computes: build, deliver, created, service_log, ...),
    Spec.v (what the configuration says: cpath, instance_spec, connectors_supported, connector_cycle),
    Proofs1.v (acyclic, is_walk), Proofs3.v (ends_exp). *)
-From Verif Require Import Common.Base C09.Model C09.Spec C09.Proofs1 C09.Proofs2 C09.Proofs3 C09.Proofs4 C09.Proofs5 C09.Tie.
+From Verif Require Import Common.Base C09.Model C09.Spec C09.Proofs1 C09.Proofs2 C09.Proofs3 C09.Proofs4 C09.Proofs5 C09.Proofs6 C09.TieDefs C09.Tie C09.Harness C09.Clauses C09.ClausesSound.
 From Verif Require Import Generated.C09Nodes Generated.C09Levels Generated.C09StabilityTable.
 From Coq Require Import Permutation.
 
@@ -116,6 +116,39 @@ Theorem supported_factory_kind : forall c k x m E R,
   (x = false -> supported c k E R = true -> E < 3 /\ R < 3).
 Proof. exact supported_factory_kind_l. Qed.
 
+(* Selective routing: router.Consumer(ids...) is refused exactly when no id is given or some id is not one of
+   the pipelines the router offers; otherwise the returned consumer feeds exactly the requested pipelines — each
+   once per time it was requested, and no other pipeline. *)
+Theorem router_consumer_exact : forall offered ids,
+  (forall l, router_consumer offered ids = Some l <-> ids <> [] /\ (forall p, In p ids -> In p offered) /\ l = ids) /\
+  (router_consumer offered ids = None <-> ids = [] \/ exists p, In p ids /\ ~ In p offered).
+Proof. exact router_consumer_exact_l. Qed.
+
+Theorem route_deliver_exact : forall g n ids,
+  (forall ds, route_deliver g n ids = Some ds ->
+     ids <> [] /\ (forall p, In p ids -> In p (router_pids g n)) /\ ds = flat_map (fun p => deliver g (Cap p)) ids) /\
+  (route_deliver g n ids = None <-> ids = [] \/ exists p, In p ids /\ ~ In p (router_pids g n)).
+Proof. exact route_deliver_exact_l. Qed.
+
+(* ... at the level of exporters, in the property's own words: receiver (s, i) reaches exporter (s', e) iff some
+   pipeline P of signal s lists i, P feeds (is, or reaches through a chain of connector links) a pipeline Q of signal
+   s', and Q lists e as an exporter. *)
+Theorem exporters_reached_exact : forall c g s i s' e,
+  wf_config c -> build c = Ok g -> In (Recv s i) (g_nodes g) ->
+  ((exists t, In (Exp s' e, t) (deliver g (Recv s i))) <->
+   exists P Q, In P (pipes c) /\ p_sig P = s /\ In i (p_recv P) /\ is_conn c i = false /\
+               feeds c P Q /\ In Q (pipes c) /\ p_sig Q = s' /\ In e (p_exps Q) /\ is_conn c e = false).
+Proof. exact exporters_reached_exact_l. Qed.
+
+(* the hypotheses of the routing theorems: "Recv s i is a node" holds exactly for the receivers the configuration
+   lists; wf_config is decidable and is checked on every recorded configuration (wf_ok in check_case2) *)
+Theorem receiver_nodes_exact : forall c g s i,
+  build c = Ok g -> (In (Recv s i) (g_nodes g) <-> instance_spec c (Recv s i)).
+Proof. exact receiver_nodes_exact_l. Qed.
+
+Theorem wf_config_decidable : forall c, wf_ok c = true <-> wf_config c.
+Proof. exact wf_ok_iff. Qed.
+
 (* Instances.  The factory calls of a successful build are duplicate-free and are exactly: one
    receiver per (signal, id) listed by some pipeline of that signal, one exporter per (signal, id),
    one processor per (pipeline, id), one connector per (exporter signal, receiver signal, id) such
@@ -133,6 +166,34 @@ Theorem cycle_message_names_cycle : forall c l,
   exists a b k m, is_walk (edges_of c) (Conn a b k :: m ++ [Conn a b k]) /\
                   filter visible (Conn a b k :: m ++ [Conn a b k]) = l.
 Proof. exact cycle_report_l. Qed.
+
+(* ---- the decidable clause checkers evaluated on every recorded case decide the clauses ------------------- *)
+(* observed deliveries [obs] of one receiver pass the checker iff they are, as a multiset, what every duplicate-free
+   enumeration of the configuration paths yields *)
+Theorem clause_routing_sound : forall c g s i obs,
+  wf_config c -> build c = Ok g -> In (Recv s i) (g_nodes g) ->
+  (recv_routing_ok g (Recv s i) obs = true <->
+   forall sp, NoDup sp -> (forall p, In p sp <-> cpath c s i p) -> Permutation obs (omap observe sp)).
+Proof. exact recv_routing_ok_sound. Qed.
+
+(* the observed factory calls pass the checker iff they are duplicate-free and exactly the instances the
+   configuration calls for *)
+Theorem clause_instances_sound : forall c g crt,
+  build c = Ok g ->
+  (instances_ok (Ok g) crt = true <-> NoDup crt /\ forall n, In n crt <-> instance_spec c n).
+Proof. exact instances_ok_sound. Qed.
+
+(* observed class / created / started pass the checker iff an error is reported, nothing is started and (unless a
+   factory refused during buildComponents) nothing was created whenever Build must fail, and no error otherwise *)
+Theorem clause_rejected_sound : forall c cls crt std,
+  rejected_ok (build c) cls crt std = true <->
+  (forall e, build c = Err e -> cls <> 0 /\ std = [] /\ (e <> EFactory -> crt = [])) /\
+  (forall g, build c = Ok g -> cls = 0).
+Proof. exact rejected_ok_sound. Qed.
+
+Print Assumptions clause_routing_sound.
+Print Assumptions clause_instances_sound.
+Print Assumptions clause_rejected_sound.
 
 (* ---- ties to definitions regenerated from the current Go source (instance obligations) ------------------ *)
 (* which nodes are components (component.Component in the method set: translator T1) *)
@@ -169,5 +230,10 @@ Print Assumptions deliver_in_iff.
 Print Assumptions failure_isolated.
 Print Assumptions connector_router_exact.
 Print Assumptions supported_factory_kind.
+Print Assumptions router_consumer_exact.
+Print Assumptions route_deliver_exact.
+Print Assumptions exporters_reached_exact.
+Print Assumptions receiver_nodes_exact.
+Print Assumptions wf_config_decidable.
 Print Assumptions instances_exact.
 Print Assumptions cycle_message_names_cycle.
